@@ -59,6 +59,13 @@ class Interp(object):
         self.static_cells = {}
         self.firstset_of = {}
         self.watch = {}
+        self.cur_pc = ()
+        self.cur_fn = None
+        self.visits = {}
+        self.opaque_calls = {}
+        self.loops = {}
+        self.exec_sites = set()
+        self.regex_patterns = []
         self.bulk_by_ref_as_exists = True
         self.hash_names = {}      # const name suffix -> sym
         self.trace = False
@@ -327,6 +334,43 @@ class Interp(object):
         return frozenset()
 
     def rng(self, v):
+        r = self.rng0(v)
+        if r is None or not self.cur_pc or not isinstance(v, Term):
+            return r
+        lo, hi = r
+        for c in self.cur_pc:
+            if c.kind != 's' or len(c.sup) != 1 or c.sup[0][0] != '@':
+                continue
+            at = B.ATOMS[c.sup[0][1]]
+            pos = c.tt == (0, 1)
+            if at.kind == 'cmp':
+                op, a, b = at.payload
+                if a == v and isinstance(b, BV) and b.known():
+                    k = b.val()
+                elif b == v and isinstance(a, BV) and a.known():
+                    k = a.val()
+                    op = {'Lt': 'Gt', 'Gt': 'Lt', 'Le': 'Ge', 'Ge': 'Le'}.get(op, op)
+                else:
+                    continue
+                if not pos:
+                    op = {'Lt': 'Ge', 'Ge': 'Lt', 'Le': 'Gt', 'Gt': 'Le', 'Eq': 'Ne', 'Ne': 'Eq'}.get(op)
+                if op == 'Lt':
+                    hi = min(hi, k - 1)
+                elif op == 'Le':
+                    hi = min(hi, k)
+                elif op == 'Gt':
+                    lo = max(lo, k + 1)
+                elif op == 'Ge':
+                    lo = max(lo, k)
+                elif op == 'Eq':
+                    lo, hi = max(lo, k), min(hi, k)
+            elif at.kind == 'inrange' and pos:
+                x, rlo, rhi = at.payload
+                if x == v:
+                    lo, hi = max(lo, rlo), min(hi, rhi)
+        return lo, hi
+
+    def rng0(self, v):
         if isinstance(v, BV):
             if v.known():
                 x = v.val()
@@ -381,6 +425,12 @@ class Interp(object):
                     return BV((C0,) * k + a.bits[:n - k], a.signed)
                 fill = a.bits[-1] if a.signed else C0
                 return BV(a.bits[k:] + (fill,) * k, a.signed)
+            if isinstance(b, Term) and b.kind not in ('tz', 'sigma') and isinstance(a, (BV, Term)):
+                w = a.w
+                rb = self.rng(b)
+                if rb and rb[1] < w:
+                    # in-range shift by an unknown amount: any bit pattern (sound havoc)
+                    return BV.var('sh%d' % next(self.frame_counter), w)
             if op.startswith('Shl') and isinstance(a, BV) and a.known() and a.uval() == 1 and isinstance(b, Term) \
                     and b.kind == 'tz':
                 return self.first_set(b.args[0], a.w)
@@ -425,9 +475,14 @@ class Interp(object):
                 return self.term_add(a, sgn * b.val())
             if isinstance(b, Term) and isinstance(a, BV) and a.known() and sgn == 1:
                 return self.term_add(b, a.val())
-            if isinstance(a, BV) and isinstance(b, BV):
-                return Term('arith', (op, a, b), a.w)
-            return Term('arith', (op, a, b), getattr(a, 'w', 64))
+            w = getattr(a, 'w', 64)
+            ra, rb = self.rng(a), self.rng(b)
+            if ra and rb:
+                mx = (1 << w) - 1
+                if sgn == 1:
+                    return Term('arith', (op, a, b), w, min(ra[0] + rb[0], mx), min(ra[1] + rb[1], mx))
+                return Term('arith', (op, a, b), w, max(ra[0] - rb[1], 0), max(ra[1] - rb[0], 0))
+            return Term('arith', (op, a, b), w)
         if op in ('Mul', 'Div', 'Rem', 'MulUnchecked'):
             ra, rb = self.rng(a), self.rng(b)
             w = getattr(a, 'w', 64)
@@ -625,9 +680,12 @@ class Interp(object):
                 bits_ = (v.bits + (fill,) * n)[:n]
                 return BV(bits_, signed)
             if isinstance(v, Term):
-                if v.hi < (1 << n):
-                    return Term(v.kind, v.args, n, v.lo, v.hi, signed)
-                self.ev('lossy-cast', None, None, repr(v))
+                lo, hi = self.rng(v)
+                if hi < (1 << n):
+                    if (lo, hi) == (v.lo, v.hi):
+                        return Term(v.kind, v.args, n, v.lo, v.hi, signed)
+                    return Term('narrowed', (v,), n, lo, hi, signed)
+                self.ev('lossy-cast', self.cur_fn, None, 'cast of %r (range [%d,%d]) to %d bits' % (v, lo, hi, n))
                 return Term('trunc', (v, n), n)
             if isinstance(v, Enum):
                 # fieldless enum as integer: its discriminant
@@ -794,6 +852,56 @@ class Interp(object):
                 return Ref(cell)
         return Tok(name, ty)
 
+    def fresh_value(self, name, ty, depth=0):
+        """Unknown value of a type (sound over-approximation of any callee result)."""
+        ti = self.tyinfo(ty) if ty else None
+        if not ti or depth > 4:
+            return Tok(name, ty)
+        k = ti['k']
+        if k == 'bool':
+            return boolv(B.atom_bit(B.atom('tokbool', name)))
+        if k == 'int':
+            return Term('tok', (name,), ti['bits'], signed=ti.get('signed', False))
+        if k == 'char':
+            return Term('tok', (name,), 32, 0, 0x10FFFF)
+        if k == 'tuple':
+            if not ti['of']:
+                return UNIT
+            return Struct('tuple', [self.fresh_value('%s.%d' % (name, i), t, depth + 1) for i, t in enumerate(ti['of'])])
+        if k == 'ref':
+            cell = ('static', 'fresh:' + name)
+            self.static_cells[cell] = self.fresh_value(name + '*', ti['to'], depth + 1)
+            return Ref(cell)
+        if k == 'adt':
+            base = ti['path']
+            if base in ('std::option::Option', 'std::result::Result') and len(ti['variants']) == 2:
+                a = B.atom('variant', (name, 1), payload=(name, 1))
+                v1 = Enum(ty, 1, [self.fresh_value('%s#1.%d' % (name, i), t, depth + 1) for i, t in enumerate(ti['variants'][1]['fields'])])
+                v0 = Enum(ty, 0, [self.fresh_value('%s#0.%d' % (name, i), t, depth + 1) for i, t in enumerate(ti['variants'][0]['fields'])])
+                return Ite(B.atom_bit(a), v1, v0)
+            if ti['enum'] and all(not v['fields'] for v in ti['variants']) and ti.get('local'):
+                return Tok(name, ty)
+        return Tok(name, ty)
+
+    def havoc(self, v, tag):
+        """Forget a value but keep its shape (loop-carried state of a loop with unknown trip count)."""
+        n = next(self.frame_counter)
+        if isinstance(v, BV):
+            if v.w == 1:
+                return boolv(B.atom_bit(B.atom('tokbool', 'hv%d' % n)))
+            return BV.var('hv%d' % n, v.w)
+        if isinstance(v, Term):
+            return Term('tok', ('hv%d' % n,), v.w)
+        if isinstance(v, Struct) and not v.ty.startswith('$'):
+            return Struct(v.ty, [self.havoc(x, tag) if isinstance(x, V) else x for x in v.fields])
+        if isinstance(v, (Ref, FnItem)):
+            return v
+        if isinstance(v, Struct):
+            return v
+        if isinstance(v, HF):
+            return HF([(('OPAQUE', 'hv%d' % n), C1)])
+        return Top('havoc:' + tag)
+
     def getindex(self, st, v, idx):
         if isinstance(v, Ref):
             v = self.read_at(st, v.cell, v.path)
@@ -879,8 +987,32 @@ class Interp(object):
             if c not in st.store:
                 raise Undecided('read of uninitialised local _%d' % place['l'])
             return st.store[c]
+        if place['p'][0] == 'deref':
+            v0 = st.store.get((frame, place['l']))
+            if isinstance(v0, Ite):
+                return self.read_through(st, frame, v0, place['p'][1:])
+            if isinstance(v0, (Tok, Top)):
+                return self.fresh_value('deref%d' % next(self.frame_counter), None)
         cell, path = self.resolve(st, frame, place)
         return self.read_at(st, cell, path)
+
+    def read_through(self, st, frame, v, rest):
+        if isinstance(v, Ite):
+            return self.merge(v.c, self.read_through(st, frame, v.a, rest), self.read_through(st, frame, v.b, rest))
+        if isinstance(v, Ref):
+            path = v.path
+            for e in rest:
+                if e == 'deref':
+                    inner = self.read_at(st, v.cell, path)
+                    return self.read_through(st, frame, inner, rest[rest.index(e) + 1:])
+                if 'f' in e:
+                    path = path + (('f', e['f']),)
+                elif 'dc' in e:
+                    path = path + (('dc', e['dc']),)
+                else:
+                    raise Undecided('projection through merged reference')
+            return self.read_at(st, v.cell, path)
+        raise Undecided('deref of %r' % (v,))
 
     def deref(self, st, v):
         """Value behind a reference value (identity for non-refs)."""
@@ -1025,6 +1157,10 @@ class Interp(object):
             if not pl['p']:
                 return Ref((fr.id, pl['l']), (), rv.get('mut', False))
             # reborrow &(*_x) keeps the target
+            if len(pl['p']) == 1 and pl['p'][0] == 'deref':
+                v0 = st.store.get((fr.id, pl['l']))
+                if isinstance(v0, (Ite, Tok, Top)):
+                    return v0
             cell, path = self.resolve(st, fr.id, pl)
             return Ref(cell, path, rv.get('mut', False))
         if k == 'bin':
@@ -1147,6 +1283,8 @@ class Interp(object):
             if self.fuel <= 0:
                 raise Undecided('fuel exhausted in %s' % fr.fname)
             blk = blocks[bb]
+            self.cur_pc = st.pc
+            self.cur_fn = fr.fname
             for s in blk['st']:
                 if 'dst' in s:
                     dst = s['dst']
@@ -1157,6 +1295,7 @@ class Interp(object):
                     raise Undecided('SetDiscriminant')
             t = blk['term']
             k = t['k']
+            self.cur_pc = st.pc
             if k == 'goto':
                 bb = t['t']
             elif k == 'return':
@@ -1235,6 +1374,15 @@ class Interp(object):
                     continue
                 if isinstance(d, Top):
                     raise Undecided('switch on Top(%s) in %s at %s' % (d.why, fr.fname, t.get('at')))
+                if isinstance(d, Term):
+                    join = ipd[bb]
+                    if join is None:
+                        join = EXIT
+                    st = self.fork(st, fr, d, t, join)
+                    if st is None:
+                        return None
+                    bb = join
+                    continue
                 if not isinstance(d, BV):
                     raise Undecided('switch on %r in %s' % (d, fr.fname))
                 join = ipd[bb]
@@ -1248,6 +1396,13 @@ class Interp(object):
                 raise Undecided('terminator %s in %s' % (k, fr.fname))
 
     def eq_const_bit(self, d, v):
+        if isinstance(d, Term):
+            lo, hi = self.rng(d)
+            if v < lo or v > hi:
+                return C0
+            if lo == hi == v:
+                return C1
+            return self.cmp_atom('Eq', d, BV.const(v, d.w))
         r = C1
         for i, b in enumerate(d.bits):
             want = (v >> i) & 1
@@ -1321,6 +1476,7 @@ class Interp(object):
             fv = self.operand(st, fr, t['f'])
             raise Undecided('indirect call %r' % (fv,))
         self.calls_seen[path] = self.calls_seen.get(path, 0) + 1
+        self.exec_sites.add((fr.fname, t.get('at'), path))
         if self.watch:
             for suf, sink in self.watch.items():
                 if path == suf or path.endswith('::' + suf):
@@ -1338,7 +1494,9 @@ class Interp(object):
                 if t['t'] is None:
                     self.panics[(fr.fname, t['at'], path)] = st.pc
                     return None
-                ret, st2 = Top('unknown callee ' + path), st
+                d = t['dst']
+                dty = fr.fn['locals'][d['l']] if not d['p'] else None
+                ret, st2 = self.fresh_value('ret%d' % next(self.frame_counter), dty), st
             else:
                 ret, st2 = h(self, st, fr, t, args)
         if isinstance(ret, ForkReq):
